@@ -27,6 +27,7 @@
 import DfolsVerif.Proofs.Dykstra
 import DfolsVerif.Driver.DykstraDrv
 import DfolsVerif.Gen.DykstraFns
+import DfolsVerif.Gen.TrProj
 
 namespace Dfols
 namespace C15
@@ -236,6 +237,21 @@ example : dykstra intOps [id, fun w => pbox min max w [0, 0] [4, 2]] [1, 1] 3 1 
 example : dykstra intOps [fun w => pbox min max w [0, 0] [4, 2]] [7, -9] 0 1 = [7, -9] := by decide
 
 end Examples
+
+/-! ### layer G: who calls `dykstra` with which sweep budget and tolerance (table regenerated from the whole package) -/
+
+/-- **the sweep budget handed to `dykstra` is the Dykstra one**: every one of the ten call sites of the package passes as
+    `max_iter` / `tol` either the sub-problem solver's own `d_max_iters` / `d_tol` parameters, or
+    `params('dykstra.max_iters')` / `params('dykstra.d_tol')`, or — only the two `Model` methods that map a stored point to
+    absolute coordinates — nothing (the defaults 100 / 1e-10 of the signature).  In particular no site passes an S-FISTA or
+    trust-region iteration count as the sweep budget ("at most max_iter sweeps" is about this argument). -/
+theorem C15_src_sweep_budget :
+    Gen.dykstraSignature = "P, x0, max_iter=100, tol=1e-10" ∧ Gen.dykstraCalls.length = 10 ∧
+    ∀ c ∈ Gen.dykstraCalls,
+      (c.2.2.2.1 = "d_max_iters" ∧ c.2.2.2.2 = "d_tol") ∨
+      (c.2.2.2.1 = "params('dykstra.max_iters')" ∧ c.2.2.2.2 = "params('dykstra.d_tol')") ∨
+      (c.2.2.2.1 = "" ∧ c.2.2.2.2 = "" ∧ (c.1 = "model.py:xpt" ∨ c.1 = "model.py:as_absolute_coordinates")) := by
+  decide +kernel
 
 end C15
 end Dfols
